@@ -82,6 +82,7 @@ pub fn gen_batch_case(check: &str, seed: u64, family: &str, tier: Tier, with_fil
     let mut r = Rng::new(seed ^ fnv64(check));
     let mut w = World::gen_graph(&mut r, &graph_params(tier));
     gen_traversal(&mut r, &mut w);
+    gen_extras(&mut r, &mut w);
     gen_algorithm(&mut r, &mut w, true, false);
     gen_termination(&mut r, &mut w);
     let pc = gen_plugins(&mut r, &mut w);
@@ -89,6 +90,20 @@ pub fn gen_batch_case(check: &str, seed: u64, family: &str, tier: Tier, with_fil
     w.persist = r.chance(0.6);
     if with_file || !w.persist || r.chance(0.2) {
         w.out = Some(gen_out_file(&mut r, &w));
+    }
+    if check == "C19" && w.out.is_some() && r.chance(0.2) {
+        // a combined policy: every response goes to two files (any mix of formats)
+        let mut o2 = gen_out_file(&mut r, &w);
+        o2.preexisting = false;
+        // a CSV sink records its unmappable columns in the response before the next sink sees it: a later
+        // CSV column that reads "error" would then hold an object (with commas) that no reference predicts
+        if let (Some(crate::world::OutFile { format: crate::world::OutFormat::Csv { .. }, .. }), crate::world::OutFormat::Csv { mapping, .. }) = (&w.out, &mut o2.format) {
+            mapping.retain(|(k, _)| k != "err");
+            if mapping.is_empty() {
+                o2.format = crate::world::OutFormat::Json;
+            }
+        }
+        w.out2 = Some(o2);
     }
     if check == "C06" {
         // C06 reads responses back from the file when they are discarded from memory: newline-delimited JSON only
@@ -101,7 +116,11 @@ pub fn gen_batch_case(check: &str, seed: u64, family: &str, tier: Tier, with_fil
         Tier::Quick => r.range(1, 24),
         Tier::Thorough => r.range(1, 60),
     } as usize;
-    let n_batches = if r.chance(0.25) { 2 } else { 1 };
+    let n_batches = match r.below(20) {
+        0..=13 => 1,
+        14..=17 => 2,
+        _ => 3,
+    };
     let mut batches: Vec<Vec<Value>> = vec![vec![]; n_batches];
     for qid in 0..nq {
         let (q, _) = gen_query(&mut r, &w, &pc, qid, true);
@@ -322,6 +341,7 @@ impl Check for C06 {
         let obs = execute(case, ExecOpts { reference: true, trace: false, log_clock: false, explore_build: false }, Box::new(probe), fatal_fd);
         let (violations, mut reach, nontrivial) = judge(case, &obs);
         reach.insert("workers_gt1".into(), (case.workers > 1) as u64);
+        world_reach(&case.world, &mut reach);
         reach.insert("preemptions".into(), obs.stats.preemptions);
         let sig = fnv64(&format!("{}|{}", serde_json::to_string(&case.batches).unwrap(), obs.stats.sched_hash));
         ChildResult {
